@@ -7,13 +7,7 @@ seed=$1; budget=$2; shift 2
 cd "$(dirname "$(readlink -f "$0")")/.." || exit 2   # (/verif, or a vp-run snapshot of it)
 out=$PWD/work/thorough; mkdir -p $out/evidence
 for id in "$@"; do
-  exec 9>/tmp/repo.lock
-  flock 9
-  VERIF_SEED=$seed VERIF_BUDGET_S=$budget VERIF_EVIDENCE_DIR=$out/evidence ./check $id thorough > $out/$id.seed$seed.log 2>&1 &
-  pid=$!
-  sleep 100
-  flock -u 9
-  wait $pid
+  VERIF_SEED=$seed VERIF_BUDGET_S=$budget VERIF_EVIDENCE_DIR=$out/evidence ./check $id thorough > $out/$id.seed$seed.log 2>&1
   echo "$id seed=$seed exit=$? $(grep -E "^$id thorough" $out/$id.seed$seed.log | cut -c1-200)" >> $out/SUMMARY.txt
 done
 echo "sweep seed=$seed done" >> $out/SUMMARY.txt
